@@ -336,6 +336,28 @@ class _SymSub(ast.NodeTransformer):
         return self.generic_visit(n)
 
 
+def canon_isinstance(subject: str, classes: list[str]) -> str:
+    cl = sorted(set(classes))
+    return f"isinstance({subject}, {cl[0]})" if len(cl) == 1 else f"isinstance({subject}, ({', '.join(cl)}))"
+
+
+def _class_list(e: ast.AST) -> list[str] | None:
+    if isinstance(e, ast.Tuple):
+        out = []
+        for x in e.elts:
+            r = _class_list(x)
+            if r is None:
+                return None
+            out += r
+        return out
+    if isinstance(e, ast.BinOp) and isinstance(e.op, ast.BitOr):
+        l_, r_ = _class_list(e.left), _class_list(e.right)
+        return None if l_ is None or r_ is None else l_ + r_
+    if isinstance(e, (ast.Name, ast.Attribute)):
+        return [ast.unparse(e)]
+    return None
+
+
 class SymInterp(PathInterp):
     """Each path carries the expressions (as normalised text over the entry values) bound to locals and self attributes, the
     branch decisions taken and the sequence of attribute stores / statement-level calls.  Locals are substituted away, so two
@@ -409,6 +431,10 @@ class SymInterp(PathInterp):
         while isinstance(t, ast.UnaryOp) and isinstance(t.op, ast.Not):
             pol, t = not pol, t.operand
         txt = self.text(t, st)
+        if isinstance(t, ast.Call) and ast.unparse(t.func) == "isinstance" and len(t.args) == 2 and not t.keywords:
+            cl = _class_list(t.args[1])
+            if cl:
+                txt = canon_isinstance(self.text(t.args[0], st), cl)
         # decided earlier on this path?
         for c, p in st.conds:
             if c == txt:
@@ -438,7 +464,12 @@ def _sym_match(self: SymInterp, s: ast.Match, st: Sym) -> Outcome:
     exhaustive = False
     for case in s.cases:
         p = case.pattern
-        if isinstance(p, ast.MatchClass) and not p.patterns and case.guard is None:
+        alts = p.patterns if isinstance(p, ast.MatchOr) else None
+        if alts is not None and case.guard is None and all(isinstance(a, ast.MatchClass) and not a.patterns and not a.kwd_patterns for a in alts):
+            test = canon_isinstance(subj, [ast.unparse(a.cls) for a in alts])
+            out.absorb(self.block(case.body, [cur.cond(test, True)]))
+            cur = cur.cond(test, False)
+        elif isinstance(p, ast.MatchClass) and not p.patterns and case.guard is None:
             test = f"isinstance({subj}, {ast.unparse(p.cls)})"
             inside = cur.cond(test, True)
             for name, sub in zip(p.kwd_attrs, p.kwd_patterns):
